@@ -111,7 +111,10 @@ def _grid(rng, quick):
 
 def _set_desc(lang_l, cap_l, node_l, styled, set_l=None, second=True):
     nodes = [["t", "aa "]]
-    if styled:
+    if styled == "span":
+        # the layout sits on the style nodes only (the nodes the DFXP writer turns into <span region=..>)
+        nodes += [["s", True, {"italics": True}, node_l], ["t", "bb"], ["s", False, {"italics": True}, node_l]]
+    elif styled:
         nodes += [["s", True, {"italics": True}, node_l], ["t", "bb", node_l], ["s", False, {"italics": True}, node_l]]
     else:
         nodes += [["t", "bb", node_l]]
@@ -133,9 +136,10 @@ def inputs(ctx):
         n += 1
     grid = _grid(rng, ctx.quick)
     for d in grid:
-        for level in ("lang", "cap", "styled", "plain"):
+        for level in ("lang", "cap", "styled", "plain", "span"):
             desc = _set_desc(d if level == "lang" else None, d if level == "cap" else None,
-                             d if level in ("styled", "plain") else None, level == "styled")
+                             d if level in ("styled", "plain", "span") else None,
+                             "span" if level == "span" else level == "styled")
             ins.append({"id": "g%d" % n, "k": "dfxprt", "set": desc, "opts": "identity", "level": level})
             n += 1
             if "o" not in d or "e" in d:
@@ -220,16 +224,31 @@ def inputs(ctx):
         if rng.random() < 0.5:
             ins.append({"id": "r%d" % k, "k": "dfxprt", "set": _set_desc(
                 rnd_layout() if rng.random() < 0.4 else None, rnd_layout() if rng.random() < 0.5 else None,
-                rnd_layout() if rng.random() < 0.5 else None, rng.random() < 0.7,
+                rnd_layout() if rng.random() < 0.5 else None, rng.choice([True, True, False, "span"]),
                 rnd_layout() if rng.random() < 0.2 else None), "opts": "identity"})
         else:
-            g = [rnd_layout() for _ in range(rng.randrange(1, 4))]
+            g = [rnd_layout() if rng.random() < 0.85 else None for _ in range(rng.randrange(1, 4))]
             ins.append({"id": "r%d" % k, "k": "vttpos", "groups": g, "cap": rnd_layout() if rng.random() < 0.3 else None,
                         "lang": None})
+    # one caption mixing text that has a layout of its own with text that has none (what an API user,
+    # or a merge of captions, produces): the text without one takes the caption's / language's layout
+    # and is a cue of its own next to the positioned text
+    d1 = {"o": [["10", "%"], ["20", "%"]], "e": [["50", "%"], ["30", "%"]]}
+    d2 = {"o": [["40", "%"], ["60", "%"]], "a": ["left", None]}
+    d3 = {"o": [["25", "%"], ["5", "%"]], "e": [["30", "%"], ["10", "%"]], "a": ["right", None]}
+    for groups in ([d1, None], [None, d1], [d1, None, d2], [None, d1, None], [d1, None, d1], [d2, None], [d1, d2, None]):
+        for cap in (None, d3, d1):
+            for lang in (None, d2):
+                ins.append({"id": "m%d" % n, "k": "vttpos", "groups": groups, "cap": cap, "lang": lang})
+                n += 1
     for k, st in enumerate(["line:5% align:left", "position:10% size:35%", "align:end", "line:0 position:50%,center",
                             "vertical:rl", "region:fred", "align:left\tposition:50%", "align:left  position:50%",
                             "line:5%\t\talign:left   size:40%", "position:10%,line-left align:center size:35%"]):
         ins.append({"id": "w%d" % k, "k": "vttpos", "raw": st})
+        # "one or more SPACE or TAB" between the end time and the settings, and around the arrow
+        for j, (sep, arrow) in enumerate((("\t", " --> "), ("  ", " --> "), (" \t", " --> "), ("\t ", "\t-->\t"), (" ", "  -->  "),
+                                         ("\t\t", " -->\t"))):
+            ins.append({"id": "w%d-%d" % (k, j), "k": "vttpos", "raw": st, "sep": sep, "arrow": arrow})
     return ins
 
 
@@ -268,13 +287,18 @@ def _abs_set(desc):
                     nodes.append({"l": A_layout(nd[2]) if len(nd) > 2 and nd[2] else NONE, "s": [ord(ch) for ch in nd[1]],
                                   "styled": False})
             # a text node between style nodes of the same layout is "styled"
+            # ... and text without a layout of its own has the layout of the span that wraps it
             k = 0
             inside = False
+            span_l = None
             for nd in c["nodes"]:
                 if nd[0] == "s":
                     inside = bool(nd[1])
+                    span_l = nd[3] if inside and len(nd) > 3 else None
                 elif nd[0] == "t":
                     nodes[k]["styled"] = inside
+                    if inside and span_l and nodes[k]["l"] == NONE:
+                        nodes[k]["l"] = A_layout(span_l)
                     k += 1
             caps.append({"l": A_layout(c.get("layout")), "nodes": nodes})
         langs.append({"l": A_layout(lg.get("layout")), "caps": caps})
@@ -310,8 +334,10 @@ def execute(inp):
     try:
         if "raw" in inp:
             doc = render.webvtt_doc([("00:01.000", "00:02.000", ["hello"], inp["raw"])])
+            if "sep" in inp:
+                doc = doc.replace("00:02.000 ", "00:02.000" + inp["sep"], 1).replace(" --> ", inp["arrow"], 1)
             cs = pycaption.WebVTTReader().read(doc)
-            rec["groups"] = [{"l": NONE, "raw": inp["raw"]}]
+            rec["groups"] = [{"l": NONE, "nl": NONE, "raw": inp["raw"]}]
         else:
             nodes = []
             for k, g in enumerate(inp["groups"]):
@@ -320,7 +346,7 @@ def execute(inp):
                 nodes.append(["t", "part%d" % k] + ([g] if g else []))
             cs = build.caption_set({"langs": [{"lang": "en-US", "layout": inp["lang"], "caps": [
                 {"s": 1000000, "e": 2000000, "layout": inp["cap"], "nodes": nodes}]}]})
-            rec["groups"] = [{"l": A_layout(g or inp["cap"] or inp["lang"]), "raw": ""} for g in inp["groups"]]
+            rec["groups"] = [{"l": A_layout(g or inp["cap"] or inp["lang"]), "nl": A_layout(g), "raw": ""} for g in inp["groups"]]
             rec["node_layouts"] = [A_layout(g) for g in inp["groups"]]
         if "raw" not in inp:
             # another writer object, with other options, converts an equal set first: what it
@@ -359,16 +385,6 @@ def execute(inp):
     except Exception as e:
         rec["err"] = type(e).__name__ + ": " + str(e)[:200]
     return rec
-
-
-def _groups_merge(rec):
-    """consecutive groups with equal layouts are one group (computed on the abstract values)"""
-    out = []
-    for g in rec["groups"]:
-        if out and out[-1]["l"] == g["l"] and out[-1]["raw"] == g["raw"]:
-            continue
-        out.append(g)
-    return out
 
 
 def signature(inp, rec, clause):
